@@ -107,6 +107,8 @@ class Thread
 #endif
 	Handle_ _thread;
 	volatile bool _threadFinished;
+protected:
+	bool _deleteOnExit; // if set (by a subclass, before start()) the thread deletes its object after run() returns
 private:
 	template<class F>
 	struct Context {
@@ -146,7 +148,12 @@ private:
 	static ASL_THREADFUNC_RET ASL_THREADFUNC_API begin(void* p)
 	{
 		Thread* t = (Thread*)p;
+		bool deleteOnExit = t->_deleteOnExit;
 		t->run();
+		if (deleteOnExit) {
+			delete t;
+			return 0;
+		}
 		t->_threadFinished = true;
 		return 0;
 	}
@@ -177,10 +184,12 @@ public:
 	{
 		_thread = 0;
 		_threadFinished = false;
+		_deleteOnExit = false;
 	}
 	Thread(const Thread& t) : _thread(t._thread)
 	{
 		_threadFinished = false;
+		_deleteOnExit = false;
 		const_cast<Thread&>(t)._thread = 0;
 	}
 	void operator=(const Thread& t)
@@ -262,6 +271,7 @@ public:
 	{
 		_thread = 0;
 		_threadFinished = false;
+		_deleteOnExit = false;
 		*this = start(f, this);
 	}
 	template<class Func>
